@@ -540,9 +540,13 @@ Definition tick_labels (s : st) : list lab :=
    | TmArmed d => if clock s <? d then [LTick (d - clock s)] else []
    | _ => []
    end)
-  ++ (match batch s with
-      | [] => []
-      | _ => if clock s <=? bstart s + maxw s then [LTick (bstart s + maxw s + 1 - clock s)] else []
+  ++ (match batch s, bpc_ s with
+      | _ :: _, BLoop =>
+          (* time.Since(batchStart) > maxWait is read only when a consumer announces itself *)
+          if (clock s <=? bstart s + maxw s)
+             && existsb (fun x => match c_pc x with CSel => true | _ => false end) (cons s)
+          then [LTick (bstart s + maxw s + 1 - clock s)] else []
+      | _, _ => []
       end).
 
 Definition lib_tau_labels (s : st) : list lab :=
@@ -623,7 +627,10 @@ Definition fuel := 96%nat.
    is non-empty, and  deadline - clock  floored at 0 while the timer is armed, are ever compared).
    [step] commutes with [view] up to [view] (same enabledness, equivalent successors), so a history
    is producible from [init] by [qstep] iff it is producible by [vstep]; without the quotient the
-   state sets double at every timing choice.  The theorems are about [step]/[qstep], never [vstep]. *)
+   state sets double at every timing choice.  [view] also completes a requested context
+   cancellation at once (XReq -> XDone): a state with XDone simulates the one with XReq (arms of a
+   select are never forced before quiescence, and an XReq state is not quiescent), so acceptance is
+   unchanged.  The theorems are about [step]/[qstep], never [vstep]. *)
 Definition norm_consumer (x : consumer) : consumer :=
   match c_pc x with CDone _ => mkC (c_ctx x) (CDone CCtx) | _ => x end.
 
@@ -631,7 +638,7 @@ Definition view (s : st) : st :=
   let e := match batch s with [] => 0 | _ => Z.min (clock s - bstart s) (maxw s + 1) end in
   let t := match tmr s with TmArmed d => TmArmed (e + Z.max (d - clock s) 0) | x => x end in
   mkSt (maxw s) (mode s)
-       e (srcq s) (fulltok s) (ctxs s) (bgdone s)
+       e (srcq s) (fulltok s) (map (fun c => match c with XReq => XDone | _ => c end) (ctxs s)) (bgdone s)
        (ppc_ s) (perr s) (cclosed s)
        (bpc_ s) (batch s) 0 t (tc s) (wae s) (bclosed s)
        (wg s) (map norm_consumer (cons s)) (kpc_ s)
